@@ -6,7 +6,8 @@
                      kinds: 0 firstlast, 1 firstlast_valid, 2 firstlast_splicing, 3 slice, 4 slice_array
                      events: i >= 0 = next() on view i, -1 = tscale()
              output: per event  enc(out) ++ [iw or -1 for None; nalloc]   (Object.run_schedule)
-   mode 3    input : [ns; nswin; ov; 3; ubits]     output: [nwin_raw ubits ns nswin ov]  *)
+   Constructor arguments in other representations (NumPy ints, unsigned, floats) are mode 0 cases:
+   the object must behave as for the same Python ints. *)
 From Coq Require Import ZArith List Bool.
 From IBL.lib Require Import PyInt RunLib.
 From IBL.C17 Require Import Model Object.
@@ -56,11 +57,6 @@ Definition run (inp : list Z) : list Z :=
             flat_map (fun p => enc_out (fst p) ++ enc_obj (snd p))
                      (snd (run_schedule ns nswin ov (map dec_kind ks) (map dec_event es)))
         | [] => [-999]
-        end
-      else if mode =? 3 then
-        match rest with
-        | [ubits] => [nwin_raw ubits ns nswin ov]
-        | _ => [-999]
         end
       else [-999]
   | _ => [-999]
